@@ -98,9 +98,9 @@ func (ciCmp) Compare(ctx context.Context, left, right val.Tuple, desc *val.Tuple
 func (ciCmp) CompareValues(ctx context.Context, index int, left, right []byte, typ val.Type) (int, error) {
 	return CiCompare(left, right), nil
 }
-func (c ciCmp) Prefix(n int) val.TupleComparator                 { return c }
-func (c ciCmp) Suffix(n int) val.TupleComparator                 { return c }
-func (c ciCmp) Validated(types []val.Type) val.TupleComparator   { return c }
+func (c ciCmp) Prefix(n int) val.TupleComparator                     { return c }
+func (c ciCmp) Suffix(n int) val.TupleComparator                     { return c }
+func (c ciCmp) Validated(types []val.Type) val.TupleComparator       { return c }
 func (c ciCmp) WithValueStore(vs val.ValueStore) val.TupleComparator { return c }
 
 var (
@@ -475,3 +475,6 @@ func BruteDiff(a, b []KV, cam, same bool, inRange func(k []byte) bool) []Event {
 	}
 	return res
 }
+
+// IDOf returns the interned id of an already shipped node hash (0 = never shipped).
+func (s *Shipper) IDOf(h hash.Hash) int { return s.ids[h] }
